@@ -33,21 +33,15 @@ theorem grid_general (off : Int) (sh : Bool) (n i : Int) (hn : 1 ≤ n) (hi0 : 0
 the FFT-ordered integer frequency `fftfreq(n)·n`, for every box length `n ≥ 1`, odd or even. -/
 theorem grid_tilt (n i : Int) (hn : 1 ≤ n) (hi0 : 0 ≤ i) (hi : i < n) :
     gridIdx (indicesOffsetTilt n) indicesUsesFftshiftTilt n i = freqIdx n i := by
-  apply grid_general _ _ n i hn hi0 hi
-  simp only [indicesOffsetTilt, indicesUsesFftshiftTilt]
-  right; exact ⟨rfl, rfl⟩
+  exact grid_general _ _ n i hn hi0 hi (Or.inr ⟨rfl, rfl⟩)
 
 theorem grid_backend (n i : Int) (hn : 1 ≤ n) (hi0 : 0 ≤ i) (hi : i < n) :
     gridIdx (indicesOffsetBackend n) indicesUsesFftshiftBackend n i = freqIdx n i := by
-  apply grid_general _ _ n i hn hi0 hi
-  simp only [indicesOffsetBackend, indicesUsesFftshiftBackend]
-  right; exact ⟨rfl, rfl⟩
+  exact grid_general _ _ n i hn hi0 hi (Or.inr ⟨rfl, rfl⟩)
 
 theorem grid_utils (n i : Int) (hn : 1 ≤ n) (hi0 : 0 ≤ i) (hi : i < n) :
     gridIdx (indicesOffsetUtils n) indicesUsesFftshiftUtils n i = freqIdx n i := by
-  apply grid_general _ _ n i hn hi0 hi
-  simp only [indicesOffsetUtils, indicesUsesFftshiftUtils]
-  right; exact ⟨rfl, rfl⟩
+  exact grid_general _ _ n i hn hi0 hi (Or.inr ⟨rfl, rfl⟩)
 
 /-! ## normals, rotation and box shape -/
 
@@ -58,6 +52,24 @@ theorem effNormal_dot (R : M3) (N n v : V3) (hz : N.z ≠ 0) (hy : N.y ≠ 0) (h
   simp only [Rat.div_def]
   grind
 
+theorem intCast_ne_zero_of_pos (n : Int) (h : 1 ≤ n) : ((n : Int) : Rat) ≠ 0 := by
+  have : (0 : Rat) < ((n : Int) : Rat) := by exact_mod_cast (by omega : (0 : Int) < n)
+  grind
+
+/-- Generic form: with "rotate, then divide by the shape" and the sign-product predicate, a bin
+whose index vector is the FFT-ordered integer frequency is kept iff the specification keeps it. -/
+theorem maskBin_spec (R : M3) (N i : Int × Int × Int) (n0 n1 v : V3)
+    (hN : 1 ≤ N.1 ∧ 1 ≤ N.2.1 ∧ 1 ≤ N.2.2)
+    (hv : v = ⟨(freqIdx N.1 i.1 : Int), (freqIdx N.2.1 i.2.1 : Int), (freqIdx N.2.2 i.2.2 : Int)⟩) :
+    maskBin (fun a b => decide (a * b ≤ 0)) false true R (shapeVec N) n0 n1 v = specBin R N n0 n1 i := by
+  have e1 := intCast_ne_zero_of_pos _ hN.1
+  have e2 := intCast_ne_zero_of_pos _ hN.2.1
+  have e3 := intCast_ne_zero_of_pos _ hN.2.2
+  have hd : v.div (shapeVec N) = physFreq N i := by
+    subst hv; rfl
+  unfold maskBin specBin
+  rw [effNormal_dot R (shapeVec N) n0 v e1 e2 e3, effNormal_dot R (shapeVec N) n1 v e1 e2 e3, hd]
+
 /-- **Mask = geometry** (tilt models): bin `i` is kept iff its physical frequency vector
 (FFT-ordered index / box length), mapped into the tomogram frame by the orientation `R`, lies
 between the planes with normals `n0`, `n1` — for every box shape (odd, even, non-cubic), every
@@ -66,70 +78,28 @@ theorem mask_exact_tilt (R : M3) (N i : Int × Int × Int) (n0 n1 : V3)
     (hN : 1 ≤ N.1 ∧ 1 ≤ N.2.1 ∧ 1 ≤ N.2.2)
     (hi : (0 ≤ i.1 ∧ i.1 < N.1) ∧ (0 ≤ i.2.1 ∧ i.2.1 < N.2.1) ∧ (0 ≤ i.2.2 ∧ i.2.2 < N.2.2)) :
     maskTilt R N n0 n1 i = specBin R N n0 n1 i := by
-  obtain ⟨hN1, hN2, hN3⟩ := hN
   obtain ⟨⟨a1, a2⟩, ⟨b1, b2⟩, ⟨c1, c2⟩⟩ := hi
-  have e1 : ((N.1 : Int) : Rat) ≠ 0 := by
-    have : (0 : Rat) < ((N.1 : Int) : Rat) := by exact_mod_cast (by omega : (0 : Int) < N.1)
-    grind
-  have e2 : ((N.2.1 : Int) : Rat) ≠ 0 := by
-    have : (0 : Rat) < ((N.2.1 : Int) : Rat) := by exact_mod_cast (by omega : (0 : Int) < N.2.1)
-    grind
-  have e3 : ((N.2.2 : Int) : Rat) ≠ 0 := by
-    have : (0 : Rat) < ((N.2.2 : Int) : Rat) := by exact_mod_cast (by omega : (0 : Int) < N.2.2)
-    grind
-  unfold maskTilt maskBin specBin
-  simp only [wedgeScaleBeforeRotTilt, wedgeScaleIsDivTilt, wedgePredicateTilt]
-  rw [effNormal_dot R _ n0 _ e1 e2 e3, effNormal_dot R _ n1 _ e1 e2 e3]
-  have hv : (idxVec indicesOffsetTilt indicesUsesFftshiftTilt N i).div (shapeVec N) = physFreq N i := by
-    simp only [idxVec, shapeVec, physFreq, V3.div]
-    rw [grid_tilt _ _ hN1 a1 a2, grid_tilt _ _ hN2 b1 b2, grid_tilt _ _ hN3 c1 c2]
-  rw [hv]
+  refine maskBin_spec R N i n0 n1 _ hN ?_
+  unfold idxVec
+  rw [grid_tilt _ _ hN.1 a1 a2, grid_tilt _ _ hN.2.1 b1 b2, grid_tilt _ _ hN.2.2 c1 c2]
 
 theorem mask_exact_backend (R : M3) (N i : Int × Int × Int) (n0 n1 : V3)
     (hN : 1 ≤ N.1 ∧ 1 ≤ N.2.1 ∧ 1 ≤ N.2.2)
     (hi : (0 ≤ i.1 ∧ i.1 < N.1) ∧ (0 ≤ i.2.1 ∧ i.2.1 < N.2.1) ∧ (0 ≤ i.2.2 ∧ i.2.2 < N.2.2)) :
     maskBackend R N n0 n1 i = specBin R N n0 n1 i := by
-  obtain ⟨hN1, hN2, hN3⟩ := hN
   obtain ⟨⟨a1, a2⟩, ⟨b1, b2⟩, ⟨c1, c2⟩⟩ := hi
-  have e1 : ((N.1 : Int) : Rat) ≠ 0 := by
-    have : (0 : Rat) < ((N.1 : Int) : Rat) := by exact_mod_cast (by omega : (0 : Int) < N.1)
-    grind
-  have e2 : ((N.2.1 : Int) : Rat) ≠ 0 := by
-    have : (0 : Rat) < ((N.2.1 : Int) : Rat) := by exact_mod_cast (by omega : (0 : Int) < N.2.1)
-    grind
-  have e3 : ((N.2.2 : Int) : Rat) ≠ 0 := by
-    have : (0 : Rat) < ((N.2.2 : Int) : Rat) := by exact_mod_cast (by omega : (0 : Int) < N.2.2)
-    grind
-  unfold maskBackend maskBin specBin
-  simp only [wedgeScaleBeforeRotBackend, wedgeScaleIsDivBackend, wedgePredicateBackend]
-  rw [effNormal_dot R _ n0 _ e1 e2 e3, effNormal_dot R _ n1 _ e1 e2 e3]
-  have hv : (idxVec indicesOffsetBackend indicesUsesFftshiftBackend N i).div (shapeVec N) = physFreq N i := by
-    simp only [idxVec, shapeVec, physFreq, V3.div]
-    rw [grid_backend _ _ hN1 a1 a2, grid_backend _ _ hN2 b1 b2, grid_backend _ _ hN3 c1 c2]
-  rw [hv]
+  refine maskBin_spec R N i n0 n1 _ hN ?_
+  unfold idxVec
+  rw [grid_backend _ _ hN.1 a1 a2, grid_backend _ _ hN.2.1 b1 b2, grid_backend _ _ hN.2.2 c1 c2]
 
 theorem mask_exact_utils (R : M3) (N i : Int × Int × Int) (n0 n1 : V3)
     (hN : 1 ≤ N.1 ∧ 1 ≤ N.2.1 ∧ 1 ≤ N.2.2)
     (hi : (0 ≤ i.1 ∧ i.1 < N.1) ∧ (0 ≤ i.2.1 ∧ i.2.1 < N.2.1) ∧ (0 ≤ i.2.2 ∧ i.2.2 < N.2.2)) :
     maskUtils R N n0 n1 i = specBin R N n0 n1 i := by
-  obtain ⟨hN1, hN2, hN3⟩ := hN
   obtain ⟨⟨a1, a2⟩, ⟨b1, b2⟩, ⟨c1, c2⟩⟩ := hi
-  have e1 : ((N.1 : Int) : Rat) ≠ 0 := by
-    have : (0 : Rat) < ((N.1 : Int) : Rat) := by exact_mod_cast (by omega : (0 : Int) < N.1)
-    grind
-  have e2 : ((N.2.1 : Int) : Rat) ≠ 0 := by
-    have : (0 : Rat) < ((N.2.1 : Int) : Rat) := by exact_mod_cast (by omega : (0 : Int) < N.2.1)
-    grind
-  have e3 : ((N.2.2 : Int) : Rat) ≠ 0 := by
-    have : (0 : Rat) < ((N.2.2 : Int) : Rat) := by exact_mod_cast (by omega : (0 : Int) < N.2.2)
-    grind
-  unfold maskUtils maskBin specBin
-  simp only [wedgeScaleBeforeRotUtils, wedgeScaleIsDivUtils, wedgePredicateUtils]
-  rw [effNormal_dot R _ n0 _ e1 e2 e3, effNormal_dot R _ n1 _ e1 e2 e3]
-  have hv : (idxVec indicesOffsetUtils indicesUsesFftshiftUtils N i).div (shapeVec N) = physFreq N i := by
-    simp only [idxVec, shapeVec, physFreq, V3.div]
-    rw [grid_utils _ _ hN1 a1 a2, grid_utils _ _ hN2 b1 b2, grid_utils _ _ hN3 c1 c2]
-  rw [hv]
+  refine maskBin_spec R N i n0 n1 _ hN ?_
+  unfold idxVec
+  rw [grid_utils _ _ hN.1 a1 a2, grid_utils _ _ hN.2.1 b1 b2, grid_utils _ _ hN.2.2 c1 c2]
 
 /-- `_mask_from_norms` (used by subclasses) scales the normals exactly like `create_mask`. -/
 theorem mask_from_norms_same :
@@ -147,6 +117,7 @@ theorem spec_dc (R : M3) (N : Int × Int × Int) (n0 n1 : V3)
   unfold specBin physFreq
   rw [freqIdx_zero _ hN.1, freqIdx_zero _ hN.2.1, freqIdx_zero _ hN.2.2]
   simp [M3.apply, V3.dot, Rat.div_def]
+  grind
 
 /-- **DC is always kept** by every entry point. -/
 theorem mask_dc (R : M3) (N : Int × Int × Int) (n0 n1 : V3)
@@ -195,14 +166,17 @@ theorem spec_symmetric (R : M3) (N i : Int × Int × Int) (n0 n1 : V3)
 /-! ## tilt-model selection and validation -/
 
 /-- Every accepted way to give a tilt range selects a model built from that range: the legacy
-`tilt_range=` keyword (1) is honoured when `tilt` is not given, a model object (2) is used as is,
-a tuple (3) builds a single-axis model, and only "nothing given" (0) selects the no-wedge model. -/
-theorem tilt_select (hasRange tiltNone isModel : Bool) (init : Int) :
-    tiltSelect hasRange tiltNone isModel init =
-      .ok (if tiltNone then (if hasRange then 1 else 0) else if isModel then 2 else 3) := by
+`tilt_range=` keyword alone selects the single-axis model of that range (1), a model object (2) is
+used as is, a tuple (3) builds a single-axis model, and only "nothing given" (0) selects the
+no-wedge model. -/
+theorem tilt_select (isModel : Bool) (init : Int) :
+    tiltSelect true true isModel init = .ok 1
+    ∧ tiltSelect false true isModel init = .ok 0
+    ∧ tiltSelect false false true init = .ok 2
+    ∧ tiltSelect false false false init = .ok 3 := by
   unfold tiltSelect
   simp only [bind, Except.bind, pure, Except.pure]
-  cases hasRange <;> cases tiltNone <;> cases isModel <;> simp
+  cases isModel <;> simp
 
 /-- A tilt range is accepted exactly when `-90 ≤ min < max ≤ 90`. -/
 theorem tilt_range_valid (mn mx : Rat) :
